@@ -1,5 +1,6 @@
 import Fundraising.Spec.Clearing
 import Fundraising.Proofs.DecLemmas
+import Fundraising.Proofs.MatchBatch
 /-
   Helper lemmas for C03 / C04 (batch) / C05 (batch): the sweep computes capped demand for
   every arrangement, fails exactly when demand exceeds supply, demand is antitone in the
@@ -15,18 +16,26 @@ def Arrangement (bids sorted : List Bid) : Prop :=
   sorted.Perm bids ∧ sorted.Pairwise (fun x y => y.price ≤ x.price)
 
 theorem sortBids_arrangement (bids : List Bid) : Arrangement bids (sortBids bids) := by
-  sorry
+  have := sortBids_foldl bids [] List.Pairwise.nil
+  unfold Arrangement sortBids
+  simpa using this
 
 theorem matchAt_fits_iff (a : Auction) (bids sorted : List Bid) (allowed : List Allowed) (p : Dec)
     (hw : BookWF a bids allowed) (hs : Arrangement bids sorted) (hp : 0 < p) :
     (∃ acc, matchAt p sorted a.sellAmt allowed = .fit acc) ↔ demand bids allowed p ≤ a.sellAmt := by
-  sorry
+  rcases matchAt_spec a bids sorted allowed p hw hs.1 hs.2 hp with ⟨h1, h2⟩ | ⟨h1, acc, h2, _⟩
+  · rw [h2]
+    constructor
+    · rintro ⟨acc, e⟩; cases e
+    · intro h3; omega
+  · rw [h2]
+    exact ⟨fun _ => h1, fun _ => ⟨acc, rfl⟩⟩
 
 /-- on a well-formed book the sweep never hits a nil `math.Int` -/
 theorem matchAt_ne_panic (a : Auction) (bids sorted : List Bid) (allowed : List Allowed) (p : Dec)
     (hw : BookWF a bids allowed) (hs : Arrangement bids sorted) :
-    matchAt p sorted a.sellAmt allowed ≠ .panic := by
-  sorry
+    matchAt p sorted a.sellAmt allowed ≠ .panic :=
+  matchAt_no_panic a bids sorted allowed p hw hs.1
 
 /-- number of `u`'s bids in the matched list -/
 def matchedCount (acc : MAcc) (u : Acc) : Int := (acc.matched.filter (·.bidder == u)).length
@@ -45,16 +54,18 @@ theorem matchAt_result (a : Auction) (bids sorted : List Bid) (allowed : List Al
     (∀ u, acc.pay u ≤ reservedOf bids a.payDenom u) ∧
     -- the matched bids are exactly the recorded bids that got a positive amount; all priced ≥ p
     (∀ b ∈ acc.matched, b ∈ bids ∧ p ≤ b.price) := by
-  sorry
+  obtain ⟨h1, h2, h3, h4, h5, h6, h7, h8, h9, _⟩ :=
+    matchAt_full a bids sorted allowed p acc hw hs.1 hs.2 hp h
+  exact ⟨h1, h2, h3, h4, h5, h6, h7, h8, h9⟩
 
 theorem demand_antitone (a : Auction) (bids : List Bid) (allowed : List Allowed) (p q : Dec)
     (hw : BookWF a bids allowed) (hp : 0 < p) (hpq : p ≤ q) :
-    demand bids allowed q ≤ demand bids allowed p := by
-  sorry
+    demand bids allowed q ≤ demand bids allowed p :=
+  demand_antitone' a bids allowed p q hw hp hpq
 
 theorem clearing_cases (bids : List Bid) (allowed : List Allowed) (S : Int) :
-    NoPriceFits bids allowed S ∨ ∃ p, IsClearingPrice bids allowed S p := by
-  sorry
+    NoPriceFits bids allowed S ∨ ∃ p, IsClearingPrice bids allowed S p :=
+  exists_min_price (fun p => demand bids allowed p ≤ S) bids
 
 /-- Go's `sort.Search` loop with the closure's stored result: for a predicate that is
     monotone in the index (once it fits it fits for every larger index) and never panics,
@@ -64,8 +75,8 @@ theorem searchLoop_least (f : Nat → MRes) (n : Nat)
     (hmono : ∀ h h', h ≤ h' → h' < n → (∃ acc, f h = .fit acc) → ∃ acc, f h' = .fit acc) :
     (∀ h, h < n → f h = .nofit) ∧ searchLoop f n 0 n none = some none ∨
     ∃ h acc, h < n ∧ f h = .fit acc ∧ (∀ h', h' < h → f h' = .nofit) ∧
-      searchLoop f n 0 n none = some (some acc) := by
-  sorry
+      searchLoop f n 0 n none = some (some acc) :=
+  searchLoop_least' f n hnp hmono
 
 theorem calcBatchWith_spec (a : Auction) (bids sorted : List Bid) (allowed : List Allowed)
     (hw : BookWF a bids allowed) (hs : Arrangement bids sorted) :
@@ -79,7 +90,51 @@ theorem calcBatchWith_spec (a : Auction) (bids sorted : List Bid) (allowed : Lis
           (∀ u ∈ biddersOf bids, lookupAmt mi.alloc u = cappedDemand bids allowed u p) ∧
           (demand bids allowed p = 0 →
             ∀ u ∈ biddersOf bids, lookupAmt mi.refund u = reservedOf bids a.payDenom u)) := by
-  sorry
+  rcases calcBatchWith_cases a bids sorted allowed hw hs.1 hs.2 with
+    ⟨hno, hc⟩ | ⟨p0, acc, hcl, hp0, hm, hc⟩
+  · refine ⟨_, hc, ?_, ?_⟩
+    · intro _
+      refine ⟨rfl, rfl, ?_⟩
+      intro u hu
+      exact ⟨lookupAmt_map (fun _ => 0) u _ hu,
+        lookupAmt_map (fun u => sumOver bids u (·.toPaying a.payDenom)) u _ hu⟩
+    · intro p hcp
+      obtain ⟨⟨b, hb, e⟩, hd, _⟩ := hcp
+      rw [← e] at hd
+      exact absurd hd (hno b hb)
+  · obtain ⟨hpr, htot, _, halloc, _, hz, _, _, _, _⟩ :=
+      matchAt_full a bids sorted allowed p0 acc hw hs.1 hs.2 hp0 hm
+    refine ⟨_, hc, ?_, ?_⟩
+    · intro hno
+      obtain ⟨⟨b, hb, e⟩, hd, _⟩ := hcl
+      rw [← e] at hd
+      exact absurd hd (hno b hb)
+    · intro p hcp
+      have hpp : p = p0 := by
+        obtain ⟨⟨b, hb, e⟩, hd, hmin⟩ := hcp
+        obtain ⟨⟨b0, hb0, e0⟩, hd0, hmin0⟩ := hcl
+        have h1 : p ≤ p0 := by
+          have := hmin b0 hb0 (by rw [e0]; exact hd0)
+          rw [e0] at this; exact this
+        have h2 : p0 ≤ p := by
+          have := hmin0 b hb (by rw [e]; exact hd)
+          rw [e] at this; exact this
+        exact Int.le_antisymm h1 h2
+      subst hpp
+      refine ⟨hpr, htot, ?_, ?_⟩
+      · intro u hu
+        show lookupAmt ((biddersOf bids).map (fun u => (u, acc.alloc u))) u = _
+        rw [lookupAmt_map (fun u => acc.alloc u) u _ hu]
+        exact halloc u
+      · intro hd0 u hu
+        show lookupAmt ((biddersOf bids).map
+          (fun u => (u, sumOver bids u (·.toPaying a.payDenom) - acc.pay u))) u = _
+        rw [lookupAmt_map (fun u => sumOver bids u (·.toPaying a.payDenom) - acc.pay u) u _ hu]
+        have hcd : cappedDemand bids allowed u p = 0 :=
+          isum_map_eq_zero _ (biddersOf bids)
+            (fun v _ => cappedDemand_nonneg a bids allowed hw v p (Int.le_of_lt hp0)) hd0 u hu
+        have := hz u (by rw [halloc u]; exact hcd)
+        unfold reservedOf; omega
 
 /-- the bounds C04 and C05 need from a batch settlement, for every bidder with a bid -/
 theorem calcBatchWith_bounds (a : Auction) (bids sorted : List Bid) (allowed : List Allowed) (mi : MInfo)
@@ -99,6 +154,77 @@ theorem calcBatchWith_bounds (a : Auction) (bids sorted : List Bid) (allowed : L
       mi.price * alloc ≤ PREC * pay ∧
       (alloc = 0 → refund = reservedOf bids a.payDenom u) ∧
       (0 < alloc → PREC * pay < mi.price * alloc + PREC * k) := by
-  sorry
+  rcases calcBatchWith_cases a bids sorted allowed hw hs.1 hs.2 with
+    ⟨hno, hc⟩ | ⟨p0, acc, hcl, hp0, hm, hc⟩
+  · rw [hc] at h
+    injection h with h
+    subst h
+    refine ⟨Int.le_refl 0, Int.le_of_lt hw.supply, ?_, rfl, ?_, ?_⟩
+    · show (0 : Int) = _
+      rw [isum_map_congr (lookupAmt (noMatchInfo a bids).alloc) (fun _ => 0) (biddersOf bids)
+        (fun u hu => lookupAmt_map (fun _ => 0) u _ hu), isum_map_zero]
+    · intro id hid; cases hid
+    · intro u hu
+      have ha : lookupAmt (noMatchInfo a bids).alloc u = 0 := lookupAmt_map (fun _ => 0) u _ hu
+      have hr : lookupAmt (noMatchInfo a bids).refund u = reservedOf bids a.payDenom u :=
+        lookupAmt_map (fun u => sumOver bids u (·.toPaying a.payDenom)) u _ hu
+      have h1 := capOf_nonneg allowed hw.caps u
+      have h2 := rawDemand_nonneg a bids allowed hw u 0 (Int.le_refl 0)
+      have h3 := reservedOf_nonneg a bids allowed hw u
+      have hprice : (noMatchInfo a bids).price = 0 := rfl
+      simp only [ha, hr, hprice]
+      refine ⟨Int.le_refl 0, h1, h2, h3, by omega, by simp, fun _ => trivial, fun h => by omega⟩
+  · rw [hc] at h
+    injection h with h
+    subst h
+    obtain ⟨hpr, htot, hle, halloc, hlo, hz, hhi, hres, hmat, hsub⟩ :=
+      matchAt_full a bids sorted allowed p0 acc hw hs.1 hs.2 hp0 hm
+    have hp00 : 0 ≤ p0 := Int.le_of_lt hp0
+    have hla : ∀ u ∈ biddersOf bids, lookupAmt (matchInfo a bids acc).alloc u = acc.alloc u :=
+      fun u hu => lookupAmt_map (fun u => acc.alloc u) u _ hu
+    refine ⟨?_, hle, ?_, ?_, ?_, ?_⟩
+    · show 0 ≤ acc.total
+      rw [htot]
+      exact isum_map_nonneg _ _ (fun u _ => cappedDemand_nonneg a bids allowed hw u p0 hp00)
+    · show acc.total = _
+      rw [htot, isum_map_congr _ _ _ hla]
+      exact isum_map_congr _ _ _ (fun u _ => (halloc u).symm)
+    · show ((acc.matched.length : Nat) : Int) = (((acc.matched.map (·.id)).length : Nat) : Int)
+      rw [List.length_map]
+    · intro id hid
+      obtain ⟨b, hb, e⟩ := List.mem_map.1 hid
+      have := hmat b hb
+      exact ⟨b, this.1, e, by show acc.price ≤ b.price; rw [hpr]; exact this.2⟩
+    · intro u hu
+      have ha := hla u hu
+      have hr : lookupAmt (matchInfo a bids acc).refund u = reservedOf bids a.payDenom u - acc.pay u :=
+        lookupAmt_map (fun u => sumOver bids u (·.toPaying a.payDenom) - acc.pay u) u _ hu
+      have hprice : (matchInfo a bids acc).price = p0 := hpr
+      have hids : (matchInfo a bids acc).matchedIds = acc.matched.map (·.id) := rfl
+      have h0 := cappedDemand_nonneg a bids allowed hw u p0 hp00
+      have hcd := halloc u
+      have hlo' := hlo u
+      have hpay0 : 0 ≤ acc.pay u := by
+        have : 0 ≤ p0 * acc.alloc u := Int.mul_nonneg hp00 (by rw [hcd]; exact h0)
+        have : 0 ≤ PREC * acc.pay u := Int.le_trans this hlo'
+        unfold PREC at this; omega
+      have hres' := hres u
+      have hk := matched_count_le bids sorted acc.matched hs.1 hsub u
+      have hpayeq : reservedOf bids a.payDenom u - (reservedOf bids a.payDenom u - acc.pay u) = acc.pay u := by
+        omega
+      simp only [ha, hr, hprice, hids, hpayeq]
+      refine ⟨by omega, ?_, ?_, by omega, by omega, hlo', ?_, ?_⟩
+      · rw [hcd]; unfold cappedDemand; omega
+      · rw [hcd]; unfold cappedDemand; omega
+      · intro hz0
+        have := hz u hz0
+        omega
+      · intro hpos
+        have h1 := hhi u hpos
+        have h2 : PREC * ((acc.matched.filter (·.bidder == u)).length : Int) ≤
+            PREC * ((bids.filter (fun b => b.bidder == u &&
+              (acc.matched.map (·.id)).contains b.id)).length : Int) :=
+          Int.mul_le_mul_of_nonneg_left (Int.ofNat_le.2 hk) (by decide)
+        exact Int.lt_of_lt_of_le h1 (Int.add_le_add_left h2 _)
 
 end Fundraising
